@@ -169,6 +169,48 @@ def typed_conflict(k: int) -> bool:
             and d["ra"].anchor.value != d["la"].anchor.value and d["ra"].anchor.value == d["rb"].anchor.value)
 
 
+def chain(k: int) -> bool:
+    """Three documents merged in order into one Merger, the same anchor name in each with its own value."""
+    k = realize(k)
+    pol, k = k % 4, k // 4
+    v3same = k % 2
+    vals = ["v1", "v2", "v2" if v3same else "v3"]
+    docs3 = [cmap(("k%d" % n, PlainScalarString(vals[n], anchor="x")), ("a%d" % n, None)) for n in range(3)]
+    for n in range(3):
+        docs3[n]["a%d" % n] = docs3[n]["k%d" % n]
+    policy = POLICIES[pol]
+    merger = Merger(LOG, docs3[0], MergerConfig(LOG, SimpleNamespace(anchors=policy, config=None, mergeat="/")))
+    note(policy=policy, values=vals)
+    try:
+        merger.merge_with(docs3[1])
+        merger.merge_with(docs3[2])
+    except MergeException:
+        return policy == "stop"
+    if policy == "stop":
+        return False
+    d = merger.data
+    got = [str(d["k%d" % n]) for n in range(3)]
+    names = [d["k%d" % n].anchor.value for n in range(3)]
+    note(values_after=got, anchor_names=names)
+    if policy == "left":
+        ok = got == ["v1", "v1", "v1"]
+    elif policy == "right":
+        ok = got == [vals[2], vals[2], vals[2]]
+    else:
+        ok = got == vals and all(str(d["a%d" % n]) == vals[n] for n in range(3))
+        # distinct values must live under distinct anchor names
+        for x in range(3):
+            for y in range(x + 1, 3):
+                if vals[x] != vals[y] and names[x] == names[y]:
+                    ok = False
+    if not ok:
+        return False
+    merger.prepare_for_dump(Parsers.get_yaml_editor())
+    text, back, loaded = _dump_reload(merger.data)
+    note(dumped=text)
+    return loaded and _plain(back) == _plain(merger.data)
+
+
 def shards(tier, seed):
     out = []
     n = 3 * 3 * 2 * 2 * 2 * (2 if tier == "thorough" else 1)
@@ -182,6 +224,8 @@ def shards(tier, seed):
                                       "under hash keys + list alias" if place == 0 else "inside arrays at an equal key",
                                       POLICIES[pol], NAMES, VALUES),
                              bounds={"k": "combined selector, %d combinations" % n}))
+    out.append(shard(PID, "chain", "harness.c10", "chain(k)", [("k", "int")], ["0 <= k < 8"], family="anchors/chain", budget=600,
+                     kind="S", desc="three documents merged in order, the same anchor name with its own value in each"))
     out.append(shard(PID, "typed", "harness.c10", "typed_conflict(k)", [("k", "int")], ["0 <= k < 36"], family="anchors/typed",
                      budget=600, kind="S", desc="same anchor name, values '1' / 1 / 'v' on either side x four policies"))
     return out
